@@ -284,8 +284,24 @@ def flattenLoop (msg : Bytes) (t : RType) (r : Reader) (rclass : Nat) :
         | .ok none => .err .noAnswer
         | .ok (some (n, headers'')) => flattenLoop msg t r rclass fuel n headers'' (rounds + 1)
 
-/-- `RecordSet::<D>::from_msg(msg)`; also returns the number of rounds of the flattening loop -/
-def fromMsgR (t : RType) (msg : Bytes) : Res (RRSet × Nat) :=
+/-- everything `from_msg` has read when it reaches the response-code test -/
+structure Prefix where
+  header : Header
+  question : QuestionRef
+  headers : List HdrRef
+  opt : Option Opt
+  reader : Reader
+
+/-- the response code `from_msg` tests: the header RCODE, extended by the first OPT record found
+    after the answer section -/
+def Prefix.rcode (p : Prefix) : Nat :=
+  match p.opt with
+  | some o => rcode_extended (flags_rcode p.header.flags) o.rcodeExtension
+  | none => flags_rcode p.header.flags
+
+/-- the straight-line prefix of `from_msg`: reader, header, the two flag gates, the single question,
+    the answer headers, the OPT search -/
+def fromMsgPrefix (msg : Bytes) : Res Prefix :=
   match Reader.new msg with
   | .err e => .err e
   | .panic p => .panic p
@@ -314,23 +330,28 @@ def fromMsgR (t : RType) (msg : Bytes) : Res (RRSet × Nat) :=
             | (.err e, _) => .err e
             | (.panic p, _) => .panic p
             | (.ub, _) => .ub
-            | (.ok opt, mr4) =>
-              let rc := match opt with
-                | some o => rcode_extended (flags_rcode header.flags) o.rcodeExtension
-                | none => flags_rcode header.flags
-              if rc ≠ 0 then .err (.badResponseCode rc)
-              else
-                match flattenLoop msg t mr4 question.qclass (headers.length + 1) question.qname
-                        (headers.map some) 0 with
-                | .err e => .err e
-                | .panic p => .panic p
-                | .ub => .ub
-                | .ok (name, ttl, rdata, rounds) =>
-                  match nameRefToName .heap msg name with
-                  | .ok text => .ok ({ name := text, rclass := question.qclass, ttl, rdata }, rounds)
-                  | .err e => .err e
-                  | .panic p => .panic p
-                  | .ub => .ub
+            | (.ok opt, mr4) => .ok { header, question, headers, opt, reader := mr4 }
+
+/-- `RecordSet::<D>::from_msg(msg)`; also returns the number of rounds of the flattening loop -/
+def fromMsgR (t : RType) (msg : Bytes) : Res (RRSet × Nat) :=
+  match fromMsgPrefix msg with
+  | .err e => .err e
+  | .panic p => .panic p
+  | .ub => .ub
+  | .ok p =>
+    if p.rcode ≠ 0 then .err (.badResponseCode p.rcode)
+    else
+      match flattenLoop msg t p.reader p.question.qclass (p.headers.length + 1) p.question.qname
+              (p.headers.map some) 0 with
+      | .err e => .err e
+      | .panic pk => .panic pk
+      | .ub => .ub
+      | .ok (name, ttl, rdata, rounds) =>
+        match nameRefToName .heap msg name with
+        | .ok text => .ok ({ name := text, rclass := p.question.qclass, ttl, rdata }, rounds)
+        | .err e => .err e
+        | .panic pk => .panic pk
+        | .ub => .ub
 
 def fromMsg (t : RType) (msg : Bytes) : Res RRSet :=
   match fromMsgR t msg with
